@@ -192,6 +192,7 @@ func runCheck(args []string, opts *checkOpts) int {
 	}
 
 	replayOverlay = opts.overlay
+	activeProfile = prop.Profile
 	w, err := loadWorld(prop.Packages, opts.overlay)
 	if err != nil {
 		// the tree does not type-check: nothing can be verified
